@@ -21,6 +21,7 @@ Operations
 ORACLES (judge the output of the real formatter)
   vert.oracle.inorder <strings> <out>      -> ok | bad    the strings occur in `out`, disjoint, in order
   vert.oracle.comments <strings> <out>     -> ok | bad    the squeezed strings occur in `squeeze out`, in order
+  vert.oracle.tokens <strings> <out>       -> ok | bad    the same test, on names and values
   vert.oracle.align <threshold> <w:c;...>  -> ok | bad    `alignOK` on (prefix width, value column) of one group
 -/
 namespace RF.Driver.Vertical
@@ -100,6 +101,10 @@ def handle (op : String) (args : List String) : Option String :=
       let xs ← decList xs
       let out ← decChars out
       pure (if occursInOrder (xs.map String.toList) out then "ok" else "bad")).getD "?"
+  | "vert.oracle.tokens", [xs, out] => some <| (do
+      let xs ← decList xs
+      let out ← decChars out
+      pure (if occursInOrder (xs.map fun (x : String) => squeeze x.toList) (squeeze out) then "ok" else "bad")).getD "?"
   | "vert.oracle.comments", [xs, out] => some <| (do
       let xs ← decList xs
       let out ← decChars out
